@@ -87,8 +87,8 @@ Proof.
 Qed.
 
 (* ---------- the loop over the children after the draw ---------- *)
-Lemma choose_loop_evolves : forall cs k time g acc g' canc,
-  choose_loop cs k time g acc = (g', Ok canc) -> cancel_closed g -> evolves g g' /\ cancel_closed g'.
+Lemma choose_loop_evolves : forall t cs k time g acc g' canc,
+  choose_loop t cs k time g acc = (g', Ok canc) -> cancel_closed g -> evolves g g' /\ cancel_closed g'.
 Proof.
   induction cs as [|c cs IH]; intros k time g acc g' canc H CC; cbn [choose_loop] in H.
   - inversion H; subst. split; [apply evolves_refl | exact CC].
@@ -96,7 +96,8 @@ Proof.
     + apply IH in H.
       * destruct H as [Ev C']. split; [|exact C']. eapply evolves_trans; [apply set_prob_evolves | exact Ev].
       * eapply cancel_closed_ext; [| | |exact CC]; [reflexivity | intro; apply set_prob_state | intro; apply set_prob_terminal].
-    + destruct (tg_cancel g c time) as [g1 [l|e]] eqn:Ec; [|inversion H].
+    + destruct (keeps_join g t c) eqn:Ek; [eapply IH; eauto|].
+      destruct (tg_cancel g c time) as [g1 [l|e]] eqn:Ec; [|inversion H].
       apply IH in H.
       * destruct H as [Ev C']. split; [|exact C']. eapply evolves_trans; [eapply tg_cancel_evolves; eauto | exact Ev].
       * eapply tg_cancel_keeps_closed; eauto.
@@ -116,8 +117,13 @@ Proof.
   - apply br_step with (p := p); auto; [rewrite (evolves_children _ _ _ E); exact Hc | rewrite (ev_term _ _ E); exact Ht].
 Qed.
 
-Lemma choose_loop_untaken : forall cs k time g acc g' canc,
-  choose_loop cs k time g acc = (g', Ok canc) -> cancel_closed g ->
+Lemma branch_root_regular : forall g u d, branch g u d -> tg_terminal g u = false.
+Proof. intros g u d H. induction H; assumption. Qed.
+Lemma keeps_join_terminal : forall g t c, keeps_join g t c = true -> tg_terminal g c = true.
+Proof. intros g t c H. unfold keeps_join, notify_keeps_join in H. apply andb_true_iff in H. tauto. Qed.
+
+Lemma choose_loop_untaken : forall t cs k time g acc g' canc,
+  choose_loop t cs k time g acc = (g', Ok canc) -> cancel_closed g ->
   forall u, In u cs -> u <> k -> forall d, branch g u d -> tg_state g' d = TS_CANCELLED.
 Proof.
   induction cs as [|c cs IH]; intros k time g acc g' canc H CC u Hu Hne d Hb; cbn [choose_loop] in H; [contradiction|].
@@ -126,50 +132,62 @@ Proof.
     eapply IH; eauto.
     + eapply cancel_closed_ext; [| | |exact CC]; [reflexivity | intro; apply set_prob_state | intro; apply set_prob_terminal].
     + eapply branch_evolves; [apply set_prob_evolves | exact Hb].
-  - destruct (tg_cancel g c time) as [g1 [l|e]] eqn:Ec; [|inversion H].
+  - destruct (keeps_join g t c) eqn:Ek.
+    { destruct Hu as [Hu|Hu]; [|eapply IH; eauto].
+      subst c. apply keeps_join_terminal in Ek. apply branch_root_regular in Hb. congruence. }
+    destruct (tg_cancel g c time) as [g1 [l|e]] eqn:Ec; [|inversion H].
     pose proof (tg_cancel_evolves _ _ _ _ _ Ec) as E1.
     pose proof (tg_cancel_keeps_closed _ _ _ _ _ Ec CC) as C1.
     destruct Hu as [Hu|Hu].
     + subst c. destruct (tg_cancel_closure _ _ _ _ _ Ec CC) as (_ & Hd & _).
-      destruct (choose_loop_evolves _ _ _ _ _ _ _ H C1) as [E2 _].
+      destruct (choose_loop_evolves _ _ _ _ _ _ _ _ H C1) as [E2 _].
       apply (ev_mono _ _ E2). apply Hd. apply branch_doomed. exact Hb.
     + eapply IH; eauto. eapply branch_evolves; eauto.
 Qed.
 
-(* a join that is not itself an untaken child and still has a live parent afterwards is untouched *)
-Lemma choose_loop_join : forall cs k time g acc g' canc,
-  choose_loop cs k time g acc = (g', Ok canc) -> cancel_closed g ->
-  forall j, tg_terminal g j = true -> (forall u, In u cs -> u <> k -> u <> j) ->
-  (exists p, In p (tg_parents g j) /\ tg_state g' p <> TS_CANCELLED) -> tg_state g' j = tg_state g j.
+(* a join that still has a live parent other than the conditional afterwards is untouched -- also when it is
+   itself a child of the conditional (direct edge): the loop then leaves it alone *)
+Lemma choose_loop_join : forall t cs k time g acc g' canc,
+  choose_loop t cs k time g acc = (g', Ok canc) -> cancel_closed g ->
+  forall j, tg_terminal g j = true ->
+  (exists p, In p (tg_parents g j) /\ p <> t /\ tg_state g' p <> TS_CANCELLED) -> tg_state g' j = tg_state g j.
 Proof.
-  induction cs as [|c cs IH]; intros k time g acc g' canc H CC j Ht Hnu Hlive; cbn [choose_loop] in H.
+  induction cs as [|c cs IH]; intros k time g acc g' canc H CC j Ht Hlive; cbn [choose_loop] in H.
   - inversion H; subst. reflexivity.
   - destruct (c =? k) eqn:E.
     + rewrite <- (set_prob_state g c (g_den g) j). eapply IH; eauto.
       * eapply cancel_closed_ext; [| | |exact CC]; [reflexivity | intro; apply set_prob_state | intro; apply set_prob_terminal].
       * rewrite set_prob_terminal. exact Ht.
-      * intros u Hu. apply Hnu. right. exact Hu.
-    + destruct (tg_cancel g c time) as [g1 [l|e]] eqn:Ec; [|inversion H].
+    + destruct (keeps_join g t c) eqn:Ek; [eapply IH; eauto|].
+      destruct (tg_cancel g c time) as [g1 [l|e]] eqn:Ec; [|inversion H].
       pose proof (tg_cancel_evolves _ _ _ _ _ Ec) as E1.
       pose proof (tg_cancel_keeps_closed _ _ _ _ _ Ec CC) as C1.
-      destruct (choose_loop_evolves _ _ _ _ _ _ _ H C1) as [E2 _].
+      destruct (choose_loop_evolves _ _ _ _ _ _ _ _ H C1) as [E2 _].
       destruct (tg_cancel_exact _ _ _ _ _ Ec) as (W & _ & _ & P & Q).
       assert (Hnl : ~ In j l).
-      { intro Hin. apply Q in Hin. destruct (hit_cases _ _ _ Hin) as (_ & [A|[(A & _)|(_ & _ & A)]]).
-        - apply (Hnu c (or_introl eq_refl)); [lia | congruence].
+      { intro Hin. apply Q in Hin. destruct Hlive as (p & Hp & Hpt & Hs).
+        assert (Hsg : tg_state g p <> TS_CANCELLED).
+        { intro A. apply Hs. apply (ev_mono _ _ E2). apply (ev_mono _ _ E1). exact A. }
+        destruct (hit_cases _ _ _ Hin) as (_ & [A|[(A & _)|(_ & _ & A)]]).
+        - (* the join itself is the untaken child that was not kept: it had no such parent *)
+          subst c. unfold keeps_join, notify_keeps_join in Ek. rewrite Ht in Ek. cbn [andb] in Ek.
+          assert (X : existsb (fun parent => negb (parent =? t) && negb (task_state_eqb (tg_state g parent) TS_CANCELLED))
+                              (tg_parents g j) = true); [|congruence].
+          apply existsb_exists. exists p. split; [exact Hp|]. apply andb_true_iff. split.
+          + apply negb_true_iff. lia.
+          + apply negb_true_iff. apply task_state_eqb_neq. exact Hsg.
         - congruence.
-        - destruct Hlive as (p & Hp & Hs). apply Hs. apply (ev_mono _ _ E2).
+        - apply Hs. apply (ev_mono _ _ E2).
           destruct (A p Hp) as [B|B]; [apply (cp_in _ _ _ P); apply Q; exact B | apply (ev_mono _ _ E1); exact B]. }
       assert (Es : tg_state g1 j = tg_state g j) by (unfold tg_state; rewrite (cp_out _ _ _ P j Hnl); reflexivity).
       rewrite <- Es. eapply IH; eauto.
       * rewrite (ev_term _ _ E1). exact Ht.
-      * intros u Hu. apply Hnu. right. exact Hu.
       * rewrite (evolves_parents _ _ _ E1). exact Hlive.
 Qed.
 
 (* a regular task none of whose parents changed state is untouched (so is everything behind the join) *)
-Lemma choose_loop_regular : forall cs k time g acc g' canc,
-  choose_loop cs k time g acc = (g', Ok canc) -> cancel_closed g ->
+Lemma choose_loop_regular : forall t cs k time g acc g' canc,
+  choose_loop t cs k time g acc = (g', Ok canc) -> cancel_closed g ->
   forall n, tg_terminal g n = false -> (forall u, In u cs -> u <> k -> u <> n) ->
   (forall p, In p (tg_parents g n) -> tg_state g' p = tg_state g p) -> tg_state g' n = tg_state g n.
 Proof.
@@ -181,10 +199,11 @@ Proof.
       * rewrite set_prob_terminal. exact Ht.
       * intros u Hu. apply Hnu. right. exact Hu.
       * intros p Hp. rewrite set_prob_state. apply Hpar. exact Hp.
-    + destruct (tg_cancel g c time) as [g1 [l|e]] eqn:Ec; [|inversion H].
+    + destruct (keeps_join g t c) eqn:Ek; [eapply IH; eauto; intros u Hu; apply Hnu; right; exact Hu|].
+      destruct (tg_cancel g c time) as [g1 [l|e]] eqn:Ec; [|inversion H].
       pose proof (tg_cancel_evolves _ _ _ _ _ Ec) as E1.
       pose proof (tg_cancel_keeps_closed _ _ _ _ _ Ec CC) as C1.
-      destruct (choose_loop_evolves _ _ _ _ _ _ _ H C1) as [E2 _].
+      destruct (choose_loop_evolves _ _ _ _ _ _ _ _ H C1) as [E2 _].
       destruct (tg_cancel_exact _ _ _ _ _ Ec) as (W & _ & _ & P & Q).
       assert (Hsame : forall p, In p (tg_parents g n) -> tg_state g1 p = tg_state g p).
       { intros p Hp. destruct (ev_only _ _ E1 p) as [A|A]; [exact A|].
